@@ -97,6 +97,10 @@ package diam
 //@   ensures [C04] bounds: err == nil ==> hdrlen(a.Flags) <= a.Length && a.Length <= len(data)
 //@   ensures [C01 C02] vendor: err == nil && a.Flags & 0x80 == 0x80 ==> a.VendorID == be32(data, 8)
 //@   ensures data_ok: err == nil ==> a.Data != nil && valid(a.Data)
+//@   ensures [C03] inspectable_value: err == nil && !typeis(a.Data, *GroupedAVP) ==> dprintable(a.Data)
+//@   # ASSUMED for groups: follows from DecodeGrouped's (assumed) list-level clause; storing the group into a.Data would
+//@   # need a frame rule for heap-reading predicates over callee-allocated trees
+//@   ensures [C03 assumed] inspectable_group: err == nil && typeis(a.Data, *GroupedAVP) ==> dprintable(a.Data)
 //@   ensures [C04] cursor: err == nil && !typeis(a.Data, *GroupedAVP) ==> avplen(a) == pad4s(a.Length)
 //@   ensures [C01 C04] payload: err == nil && !typeis(a.Data, *GroupedAVP) ==> forall i int :: 0 <= i && i < a.Length - hdrlen(a.Flags) ==> dbyte(a.Data, i) == data[hdrlen(a.Flags) + i]
 //@   ensures [C06] private: err == nil ==> !viewsInto(a.Data, data)
@@ -117,6 +121,10 @@ package diam
 //@   ensures [C04] bounds: err == nil ==> hdrlen(a.Flags) <= a.Length && a.Length <= len(data)
 //@   ensures [C01 C02] vendor: err == nil && a.Flags & 0x80 == 0x80 ==> a.VendorID == be32(data, 8)
 //@   ensures data_ok: err == nil ==> a.Data != nil && valid(a.Data)
+//@   ensures [C03] inspectable_value: err == nil && !typeis(a.Data, *GroupedAVP) ==> dprintable(a.Data)
+//@   # ASSUMED for groups: follows from DecodeGrouped's (assumed) list-level clause; storing the group into a.Data would
+//@   # need a frame rule for heap-reading predicates over callee-allocated trees
+//@   ensures [C03 assumed] inspectable_group: err == nil && typeis(a.Data, *GroupedAVP) ==> dprintable(a.Data)
 //@   ensures [C04] cursor: err == nil && !typeis(a.Data, *GroupedAVP) ==> avplen(a) == pad4s(a.Length)
 //@   ensures [C01 C04] payload: err == nil && !typeis(a.Data, *GroupedAVP) ==> forall i int :: 0 <= i && i < a.Length - hdrlen(a.Flags) ==> dbyte(a.Data, i) == data[hdrlen(a.Flags) + i]
 //@   ensures [C06] private: err == nil ==> !viewsInto(a.Data, data)
@@ -130,6 +138,10 @@ package diam
 //@   modifies
 //@   ensures nonnil: err == nil ==> g != nil && fresh(g)
 //@   ensures [C04] framing: err == nil ==> len(g.AVP) == framecount(data, pad4s(len(data)))
+//@   # ASSUMED, not discharged: the members were each returned by DecodeAVP, whose postcondition (discharged) says the
+//@   # member is inspectable; that the list of them is (dtree) is the induction over the loop, whose step needs a frame
+//@   # rule for append on a growing list of callee-allocated subtrees that the generator does not have
+//@   ensures [C03 assumed] inspectable: err == nil ==> dtree(g.AVP)
 //@   loop 0
 //@     invariant [C04] at_boundary: 0 <= n && n & 3 == 0 && boundary(b, n) && n <= pad4s(len(b))
 //@     invariant [C04] count: len(g.AVP) == framecount(b, n)
@@ -155,6 +167,8 @@ package diam
 //@   requires m != nil && m.Header != nil && (m.dictionary != nil ==> pwf(m.dictionary))
 //@   modifies m.AVP, m.AVP[len(m.AVP):cap(m.AVP)]
 //@   ensures [C04] framing: err == nil ==> len(m.AVP) == len(old(m.AVP)) + framecount(b, pad4s(len(b)))
+//@   # ASSUMED (induction over the loop, see DecodeGrouped): a list of inspectable AVPs is an inspectable tree
+//@   ensures [C03 assumed] inspectable: err == nil && len(old(m.AVP)) == 0 ==> dtree(m.AVP)
 //@   loop 0
 //@     invariant [C04] at_boundary: 0 <= n && n & 3 == 0 && boundary(b, n) && n <= pad4s(len(b))
 //@     invariant [C04] count: len(m.AVP) == len(old(m.AVP)) + framecount(b, n)
@@ -373,6 +387,7 @@ package diam
 //@   ensures [C05] never_beyond: single(r) ==> (m.Header.MessageLength >= 20 ==> pos(r) <= old(pos(r)) + int(m.Header.MessageLength) - 20)
 //@   ensures [C05] monotone: single(r) ==> (old(pos(r)) <= pos(r) && pos(r) <= len(stream(r)))
 //@   ensures [C05] header_kept: m.Header == old(m.Header) && m.Header.MessageLength == old(m.Header.MessageLength)
+//@   ensures [C03] inspectable: err == nil ==> dtree(m.AVP)
 //@ end
 //@
 //@ func ReadMessage(reader, dictionary) (m, err)
@@ -393,6 +408,8 @@ package diam
 //@   ensures [C05] short_length_rejected: single(reader) ==> (old(pos(reader)) + 20 <= len(stream(reader)) && be24(stream(reader), old(pos(reader)) + 1) < 20 ==> err != nil && pos(reader) == old(pos(reader)) + 20)
 //@   ensures [C05] eof_inside_body: single(reader) ==> (old(pos(reader)) + 20 <= len(stream(reader)) && be24(stream(reader), old(pos(reader)) + 1) >= 20 && old(pos(reader)) + int(be24(stream(reader), old(pos(reader)) + 1)) > len(stream(reader)) ==> err != nil)
 //@   ensures [C05] never_beyond: single(reader) ==> (old(pos(reader)) + 20 <= len(stream(reader)) && be24(stream(reader), old(pos(reader)) + 1) >= 20 ==> pos(reader) <= old(pos(reader)) + int(be24(stream(reader), old(pos(reader)) + 1)))
+//@   # C03: what the reader returns satisfies the precondition of every inspection function (String, PrettyDump, search)
+//@   ensures [C03] inspectable: err == nil ==> m != nil && m.Header != nil && (m.dictionary != nil ==> pwf(m.dictionary)) && dtree(m.AVP)
 //@ end
 //@
 //@ # ======================= reflect.go (only the bookkeeping; the rest is reflection, C18) =====
@@ -881,4 +898,118 @@ package diam
 //@   loop 0
 //@     invariant [C19] under_the_buffer_lock: locked(&msc.streamBuffMu) && sheapok(msc.s) && smapok(msc.s)
 //@   end
+//@ end
+//@
+//@ # ======================= inspection of decoded messages (C03) ==============
+//@ # "neither decoding nor any later inspection of a decoded message (string rendering, pretty dump, ...) panics":
+//@ # every rendering function is swept for run-time panics under the precondition that the tree is one the decoders
+//@ # produce (dtree: well-formed, every value printable, groups non-nil; prelude.spec). fmt is trusted not to let a
+//@ # panic of a String method escape and to return some string.
+//@ spec msgok(m *Message) bool = m != nil && m.Header != nil && (m.dictionary != nil ==> pwf(m.dictionary))
+//@ func (*AVP).String(a) (r)
+//@   property C03
+//@   modifies
+//@   requires a != nil && a.Data != nil && deepvalid(a.Data)
+//@ end
+//@ func (*GroupedAVP).String(g) (r)
+//@   property C03
+//@   modifies
+//@   implements datatype.Type.String
+//@   requires g != nil
+//@   loop 0
+//@     invariant 0 - 1 <= rangeindex && rangeindex < len(g.AVP)
+//@   end
+//@ end
+//@ func (*Header).String(h) (r)
+//@   property C03
+//@   modifies
+//@   requires h != nil
+//@ end
+//@ func indentTabs(n) (s)
+//@   property C03
+//@   modifies
+//@ end
+//@ func printGrouped(prefix, m, a, indent) (r)
+//@   property C03
+//@   modifies
+//@   requires msgok(m) && a != nil && a.Data != nil && deepvalid(a.Data) && isgroup(a) && a.Data.(*GroupedAVP) != nil && dtree(kids(a))
+//@   assume default_dictionary_initialised: dict.Default != nil && pwf(dict.Default)
+//@   loop 0
+//@     invariant 0 - 1 <= rangeindex && rangeindex < len(kids(a))
+//@     hint dtree.elem(kids(a), rangeindex + 1)
+//@   end
+//@ end
+//@ func (*Message).String(m) (r)
+//@   property C03
+//@   modifies
+//@   requires msgok(m) && dtree(m.AVP)
+//@   assume default_dictionary_initialised: dict.Default != nil && pwf(dict.Default)
+//@   loop 0
+//@     invariant 0 - 1 <= rangeindex && rangeindex < len(m.AVP)
+//@     hint dtree.elem(m.AVP, rangeindex + 1)
+//@   end
+//@ end
+//@ func boolToSymbol(flag) (r)
+//@   property C03
+//@   pure
+//@ end
+//@ func max(x, y) (r)
+//@   property C03
+//@   pure
+//@   ensures larger: r >= x && r >= y
+//@ end
+//@ func flagsToString(header) (a, b, c, d)
+//@   property C03
+//@   pure
+//@   requires header != nil
+//@ end
+//@ func appIdToString(appId) (r)
+//@   property C03
+//@   pure
+//@ end
+//@ func cmdToString(dictionary, header) (r)
+//@   property C03
+//@   modifies
+//@   requires dictionary != nil && pwf(dictionary) && header != nil
+//@ end
+//@ func dataValueToString(data) (r)
+//@   property C03
+//@   modifies
+//@   requires data != nil && dprintable(data)
+//@ end
+//@ func avpToString(m, a) (name, typ, data, grouped)
+//@   property C03
+//@   modifies
+//@   requires msgok(m) && a != nil && a.Data != nil && dprintable(a.Data)
+//@   assume default_dictionary_initialised: dict.Default != nil && pwf(dict.Default)
+//@   ensures grouped_means_group: grouped ==> isgroup(a)
+//@ end
+//@ func prettyDumpAVP(w, m, a, depth)
+//@   property C03
+//@   modifies
+//@   requires msgok(m) && a != nil && a.Data != nil && dprintable(a.Data)
+//@ end
+//@ func prettyDumpGroupedAVP(w, m, a, depth)
+//@   property C03
+//@   modifies
+//@   requires msgok(m) && a != nil && a.Data != nil && isgroup(a) && a.Data.(*GroupedAVP) != nil && dtree(kids(a))
+//@   loop 0
+//@     invariant 0 - 1 <= rangeindex && rangeindex < len(kids(a))
+//@     hint dtree.elem(kids(a), rangeindex + 1)
+//@   end
+//@ end
+//@ func prettyDumpMessage(w, m, depth)
+//@   property C03
+//@   modifies
+//@   requires msgok(m) && dtree(m.AVP)
+//@   assume default_dictionary_initialised: dict.Default != nil && pwf(dict.Default)
+//@   loop 0
+//@     invariant 0 - 1 <= rangeindex && rangeindex < len(m.AVP)
+//@     hint dtree.elem(m.AVP, rangeindex + 1)
+//@   end
+//@ end
+//@ func (*Message).PrettyDump(m) (r)
+//@   property C03
+//@   modifies
+//@   requires msgok(m) && dtree(m.AVP)
 //@ end
